@@ -34,6 +34,12 @@ def analyse():
             return out
         if isinstance(test, ast.Compare) and len(test.ops) == 1 and isinstance(test.ops[0], ast.Eq) and isinstance(test.left, ast.Name) and test.left.id == 'name':
             return [lit(test.comparators[0])]
+        if isinstance(test, ast.Compare) and len(test.ops) == 1 and isinstance(test.ops[0], ast.Eq) and isinstance(test.comparators[0], ast.Name) and test.comparators[0].id == 'name':
+            return [lit(test.left)]
+        # `name in ("a", 'b', 1)`: the same disjunction of equalities
+        if isinstance(test, ast.Compare) and len(test.ops) == 1 and isinstance(test.ops[0], ast.In) and isinstance(test.left, ast.Name) and test.left.id == 'name' \
+                and isinstance(test.comparators[0], (ast.Tuple, ast.List, ast.Set)):
+            return [lit(e) for e in test.comparators[0].elts]
         problems.append('unrecognised test: ' + ast.unparse(test))
         return []
     while node is not None:
@@ -62,8 +68,25 @@ def analyse():
     ada = [n for n in fn.body if isinstance(n, ast.FunctionDef) and n.name == 'add_default_args']
     caller_wins = False
     if ada:
-        body = ast.unparse(ada[0])
-        caller_wins = 'if key not in kwargs_old' in body and 'kwargs_old[key] = kwargs_new[key]' in body
+        # `add_default_args` is a closed dictionary function: its behaviour is read off by running its current text on
+        # probes that cover every way a merge can go wrong - a caller value that is falsy (0, 0.0, False, None, [], ''),
+        # a key only the caller has, a key only the defaults have, and that nothing else is touched
+        try:
+            f_ = ada[0]
+            f_.decorator_list = []
+            ns = {}
+            exec(compile(ast.Module(body=[f_], type_ignores=[]), 'configurations.py:add_default_args', 'exec'), ns)
+            fn_ = ns['add_default_args']
+            ok = True
+            for caller in ({}, {'a': 1}, {'a': 0}, {'a': 0.0}, {'a': False}, {'a': None}, {'a': []}, {'a': ''}, {'z': 5}, {'a': [1, 2], 'b': 0}):
+                old = dict(caller)
+                r = fn_(old, a=7, b=[8], c='x')
+                got = old if r is None else r
+                want = dict(a=7, b=[8], c='x'); want.update(caller)
+                ok = ok and got == want and all(type(got[k]) is type(want[k]) for k in want)
+            caller_wins = bool(ok)
+        except Exception as ex:
+            problems.append('add_default_args could not be evaluated: %s' % type(ex).__name__)
     returns_ctor = any(isinstance(s, ast.Return) and ast.unparse(s.value) == 'cls(**kwargs)' for s in fn.body)
     return dict(advertised=advertised, branches=branches, else_raises=bool(else_raises), caller_wins=caller_wins,
                 returns_ctor=returns_ctor, problems=problems)
